@@ -96,9 +96,20 @@ def hex_to_lanes(rep, mod, fname, nbytes):
             else:
                 pos.append(None)
         got[lane] = pos
-    if nbytes == 1:
-        # out = hex2byte(hex[0], hex[1]) stored to the whole variable
-        got = {0: got.get(0)}
+    if nbytes == 1 and 0 not in got:
+        # out = hex2byte(hex[0], hex[1]) returned directly
+        for r in f.returns():
+            ci = f.inst_of(r.ops[0]) if r.ops else None
+            if ci is not None and ci.op == 'call' and ci.callee == 'hex2byte':
+                pos = []
+                for a in ci.ops:
+                    li = f.inst_of(a)
+                    if li is not None and li.op == 'load':
+                        rr, pp = trace_const(f, li.ops[0])
+                        pos.append(pp if rr.k == 'arg' and rr.argno == 0 else None)
+                    else:
+                        pos.append(None)
+                got[0] = pos
     for k in range(nbytes):
         lane = nbytes - 1 - k
         ok = got.get(lane) == [2 * k, 2 * k + 1]
@@ -122,13 +133,13 @@ def b64_encode_rule(rep, mod):
         ev = BlockEval(f, mod)
         # byte loads dp[k]: name the symbols by lane
         ev.run_block(b)
-        lanes = {}
+        lanes = {}      # symbol prefix -> byte lane
         for (ld, v) in ev.loads:
             if ld.bits != 8:
                 continue
             r, off = trace_const(f, ld.ops[0])
-            if r.k == 'inst' and f.insts[r.id].op in ('phi', 'load') or r.k == 'arg':
-                lanes.setdefault(off, next(iter(v.bits[0]))[:-1])
+            if (r.k == 'inst' and f.insts[r.id].op == 'phi') or r.k == 'arg':
+                lanes[next(iter(v.bits[0]))[:-1]] = off
         idxs = []
         for p in pushes:
             a = p.ops[1]
@@ -150,14 +161,14 @@ def b64_encode_rule(rep, mod):
                 acc = frozenset()
                 for s in bit:
                     hit = None
-                    for off, pref in lanes.items():
+                    for pref, off in lanes.items():
                         if s.startswith(pref) and s[len(pref):].isdigit():
                             hit = 'd%d_%s' % (off, s[len(pref):])
                     acc = acc ^ frozenset([hit or s])
                 out.append(acc)
             return out
         got = [ren(x) for x in idxs]
-        nl = len(lanes)
+        nl = len(set(lanes.values()))
         found[nl] = (b, got)
 
     def sl(lane, bits):
@@ -196,39 +207,49 @@ def b64_decode_rule(rep, mod):
     f = fs[0]
     where = '%s:%d' % (f.file, f.line)
     n = 0
+
+    def arr(v, name):
+        r, off = trace_const(f, v)
+        if r.k == 'inst' and f.insts[r.id].op == 'alloca' and (f.insts[r.id].name or '').startswith(name):
+            return off
+        return None
     for b in f.blocks:
+        st3 = [i for i in b.insts if i.op == 'store' and i.d.get('store_size') == 1 and arr(i.ops[1], 'char_array_3') is not None]
+        if len(st3) != 3:
+            continue
+        # sextets: the values stored into char_array_4 in this block (alphabet positions, < 64), or its
+        # cells loaded from an earlier block
         ev = BlockEval(f, mod)
-        ev.run_block(b)
-        outs = {}
         for i in b.insts:
             if i.op == 'store' and i.d.get('store_size') == 1:
-                r, off = trace_const(f, i.ops[1])
-                if r.k == 'inst' and f.insts[r.id].op == 'alloca' and (f.insts[r.id].name or '').startswith('char_array_3'):
-                    outs[off] = ev.val(i.ops[0])
-        if len(outs) != 3:
-            continue
-        n += 1
+                lane = arr(i.ops[1], 'char_array_4')
+                if lane is not None and i.ops[0].k == 'inst':
+                    ev.override[i.ops[0].id] = BV.sym(6, 'a%d_' % lane).zext(8)
+            if i.op == 'load' and i.bits == 8:
+                lane = arr(i.ops[0], 'char_array_4')
+                if lane is not None:
+                    # only used when no store in this block defines the lane
+                    pass
+        ev.run_block(b)
         lanes = {}
         for (ld, v) in ev.loads:
-            r, off = trace_const(f, ld.ops[0])
-            if r.k == 'inst' and f.insts[r.id].op == 'alloca' and (f.insts[r.id].name or '').startswith('char_array_4'):
-                lanes.setdefault(off, next(iter(v.bits[0]))[:-1])
+            lane = arr(ld.ops[0], 'char_array_4')
+            if lane is not None:
+                lanes[next(iter(v.bits[0]))[:-1]] = lane
+        n += 1
 
         def ren(bv):
             out = []
             for bit in bv.bits:
                 acc = frozenset()
-                for s in bit:
-                    hit = None
-                    for off, pref in lanes.items():
-                        if s.startswith(pref) and s[len(pref):].isdigit():
-                            k = int(s[len(pref):])
-                            hit = 'a%d_%d' % (off, k) if k < 6 else None   # sextets: bits 6,7 are zero
-                            if k >= 6:
-                                hit = ''
-                    if hit == '':
-                        continue
-                    acc = acc ^ frozenset([hit or s])
+                for s_ in bit:
+                    hit = s_
+                    for pref, lane in lanes.items():
+                        if s_.startswith(pref) and s_[len(pref):].isdigit():
+                            k = int(s_[len(pref):])
+                            hit = 'a%d_%d' % (lane, k) if k < 6 else None
+                    if hit is not None:
+                        acc = acc ^ frozenset([hit])
                 out.append(acc)
             return out
 
@@ -236,13 +257,14 @@ def b64_decode_rule(rep, mod):
             return [frozenset(['a%d_%d' % (lane, k)]) for k in bits]
         want = {0: sl(1, (4, 5)) + sl(0, range(0, 6)), 1: sl(2, range(2, 6)) + sl(1, range(0, 4)),
                 2: sl(3, range(0, 6)) + sl(2, (0, 1))}
-        for k in range(3):
-            bv = outs[k]
-            ok = isinstance(bv, BV) and ren(bv)[:8] == want[k]
-            rep.inst('R-B64GROUP', 'igris::base64_decode', 'regroup%d:byte%d' % (n, k), ok, b.insts[0].where(),
+        for i in st3:
+            k = arr(i.ops[1], 'char_array_3')
+            bv = ev.val(i.ops[0])
+            got = ren(bv)[:8] if isinstance(bv, BV) else None
+            ok = got == want[k]
+            rep.inst('R-B64GROUP', 'igris::base64_decode', 'regroup%d:byte%d' % (n, k), ok, i.where(),
                      None if ok else 'decoded byte %d is %s; RFC 4648 requires %s' % (
-                         k, ['^'.join(sorted(x)) or '0' for x in (ren(bv)[:8] if isinstance(bv, BV) else [])],
-                         ['^'.join(sorted(x)) for x in want[k]]))
+                         k, ['^'.join(sorted(x)) or '0' for x in (got or [])], ['^'.join(sorted(x)) for x in want[k]]))
     rep.inst('R-B64GROUP', 'igris::base64_decode', 'regrouping-blocks-found', n >= 2, where,
              None if n >= 2 else 'expected the full-group and the tail regrouping blocks, found %d' % n)
 
@@ -284,15 +306,15 @@ def url_rule(rep, mod):
              None if pd == inv else 'replacement pairs are %s; the decoder must undo the encoder map'
              % sorted((chr(a), chr(b)) for a, b in pd), fact=sorted((chr(a), chr(b)) for a, b in pd))
     names = demangle([c.callee for c in d.calls() if c.callee])
-    calls_dec = any(n.startswith('igris::base64_decode(') for n in names)
-    calls_enc = any(n.startswith('igris::base64_encode(') for n in names)
+    calls_dec = any(n.startswith('igris::base64_decode') for n in names)
+    calls_enc = any(n.startswith('igris::base64_encode') for n in names)
     rep.inst('R-URLPAIR', 'igris::base64url_decode', 'decodes with base64_decode', calls_dec and not calls_enc,
              '%s:%d' % (d.file, d.line),
              None if calls_dec and not calls_enc else 'base64url_decode calls %s' %
              ('the encoder base64_encode' if calls_enc else 'neither codec'))
     ecalls = demangle([c.callee for c in e.calls() if c.callee])
     rep.inst('R-URLPAIR', 'igris::base64url_encode', 'encodes with base64_encode',
-             any(n.startswith('igris::base64_encode(') for n in ecalls), '%s:%d' % (e.file, e.line))
+             any(n.startswith('igris::base64_encode') for n in ecalls), '%s:%d' % (e.file, e.line))
 
 
 def alphabet_rule(rep, mod):
